@@ -16,8 +16,9 @@ HINTS = {
     "8": "Triggers that earlier rounds under-used and that you should prefer now: a COMBINATION of two input features that are each common but rarely occur together (a control in the first column and a duplicated condition; an observed plate and a one-well plate; a batch and a chunk count that does not divide the candidates; the last sample in sort order and an empty plate; doses that differ only in sign or in the 7th digit); helpers that the anchored code calls (the casting of command line parameters to their annotated types in batchie.introspection, batchie.common, log configuration, the h5 helper functions) rather than the anchored functions themselves; the first or the last element of a loop treated differently; a comparison that changes from strict to non-strict (or the other way) where ties are possible; a clause of the statement that the earlier seeds did not touch at all. Avoid what the previous rounds used heavily: module-level or per-object caches, thresholds at 256 / 4096 / 65536, pre-existing output files, arrays aliased with the caller, mutable default arguments.",
     "9": "Triggers that earlier rounds under-used and that you should prefer now: a REFACTORING a maintainer would plausibly make (vectorising a loop, replacing a dict by array indexing, pandas merge / groupby replacing hand-written code, another sort kind or stability, np.unique swapped for a first-occurrence pass or the other way round, a boolean mask replaced by integer positions) whose semantics differ on NaN, ties, duplicates, empty groups, or on the -1 control sentinel used as an index; falsy-but-valid values (id 0, dose 0.0, seed 0, chunk index 0, an empty-string name, fraction 0.0, an empty but present array) tested with `if x` / `x or default`; integer versus true division, rounding mode (round-half-even versus ceil / floor), float32 accumulation; the ORDER of two steps swapped (validate-then-mutate, mask-then-transform, sort-then-split); exception safety (an object that is used again after one of its methods raised); a clause of the statement that the earlier seeds did not touch at all. Avoid what the previous rounds used heavily: behaviour that depends on the logging level, module-level or per-object caches, thresholds at 256 / 4096 / 65536, pre-existing output files, arrays aliased with the caller, mutable default arguments, names that differ only in surrounding blanks.",
     "10": "Triggers that earlier rounds under-used and that you should prefer now: SYMMETRY BLIND SPOTS - a change that is invisible on symmetric, square, sorted, equal-sized, single-sample, all-observed or all-distinct inputs and shows only on the asymmetric counterpart (non-square matrices, plates of unequal size, unsorted ids, a sample with a single plate next to one with many, one observed plate among unobserved ones, the LAST chunk / chain / plate being shorter than the others); UNIT CONFUSIONS (variance versus standard deviation versus precision, log versus logit, a sigmoid applied twice or not at all, mean versus sum, n versus n-1, percent versus fraction, a clip bound applied on the wrong scale); an axis or broadcast slip ((n,1) against (n,), sum over the wrong axis) that happens to give the same numbers for the shapes the tests use; command-line parameter CASTING (booleans given as the strings 'False' / '0', integers given as '3.0', a list option given once versus repeated, an option that accepts both a count and a fraction); the output file of one command consumed by the next command in a non-default way (files listed in another order, a file from an earlier iteration, a chunk listed twice); a clause of the statement that the earlier seeds did not touch at all. Avoid what the previous rounds used heavily: logging level, caches, thresholds at 256 / 4096 / 65536, pre-existing output files, aliasing, mutable defaults, blank-padded names, exception safety after a refused call, `if x` on a falsy-but-valid value.",
+    "11": "Triggers that earlier rounds under-used and that you should prefer now: CLASSIC PYTHON / NUMPY SLIPS inside otherwise sensible edits - `zip` silently truncating the longer of two sequences; `break` where `continue` was meant (or an early `return` inside a loop) so that everything after the first special element is skipped; a loop variable shadowed by an inner loop or comprehension; a slice `[:-k]` or `[-k:]` with k == 0; `range(len(x) - 1)`; `max(...)` / `min(...)` / `argmax` over an empty or all-equal collection; chained comparisons and operator precedence (`a & b == c`, `not x in y`, `-x ** 2`); `==` between an array and a scalar used as a truth value; `np.where` / boolean mask applied to the wrong one of two parallel arrays; in-place `+=` / `sort()` / `.resize` on an array that is also an INPUT of the function; `np.unique` / `set` changing the order that a later step relies on; integer ids compared as strings (`'10' < '9'`); a dictionary keyed by float or by numpy scalars of different dtypes. The edit should still read like a tidy refactoring or micro-optimisation. Also welcome: a clause of the statement that the earlier seeds did not touch at all. Avoid what the previous rounds used heavily: logging level, caches, thresholds at 256 / 4096 / 65536, pre-existing output files, aliasing with the caller, mutable defaults, blank-padded or non-ASCII names, exception safety after a refused call, `if x` on a falsy-but-valid value, de-duplication of files by base name, regular expressions, float32 casts.",
 }
-HINT = HINTS.get(rnd, HINTS["10"])
+HINT = HINTS.get(rnd, HINTS["11"])
 only = set(sys.argv[3:])
 props = [json.loads(l) for l in open("/verif/properties.jsonl")]
 os.makedirs(outdir, exist_ok=True)
